@@ -1,6 +1,7 @@
 package props
 
 import (
+	"go/ast"
 	"os"
 	"strings"
 
@@ -67,6 +68,9 @@ func panicFreedom(c *Ctx, r *oblig.Report, rule string, entries []string, pkgs m
 		entry[f] = idx
 	}
 	for _, f := range c.ListenerMethods() {
+		if !ast.IsExported(f.Name()) {
+			continue // an unexported method is a helper of the callbacks: judged at its call sites, not called by the runtime
+		}
 		var idx []int
 		for i := range f.Params {
 			idx = append(idx, i)
